@@ -34,6 +34,20 @@ func (k *wcodec) label() string {
 	return k.name
 }
 
+// wUnits: the codec functions of the property being checked. They are compared
+// with their counterpart as a whole; any other in-module helper a codec calls
+// is analysed at its call site (internal/wire inlines it).
+var wUnits map[*ssa.Function]bool
+
+func wSetUnits(c *Ctx, rel string, names ...[2]string) {
+	wUnits = map[*ssa.Function]bool{}
+	for _, n := range names {
+		if f := c.P.Func(rel, n[0], n[1]); f != nil {
+			wUnits[f] = true
+		}
+	}
+}
+
 // wAnchor resolves a function; an unresolved anchor is Undecided.
 func wAnchor(c *Ctx, w *prove.World, rel, recv, name string) *wcodec {
 	k := &wcodec{rel: rel, recv: recv, name: name}
@@ -57,6 +71,7 @@ func wEncoder(c *Ctx, w *prove.World, rel, recv, name string) *wcodec {
 	}
 	c.guard("extract", k.label()+" encoder", k.pos, func() {
 		k.x = wire.New(w, k.fn)
+		k.x.Units = wUnits
 		k.encAlts = k.x.EncLayouts()
 		for _, alt := range k.encAlts {
 			if len(wire.Flatten(alt.Atoms)) >= len(wire.Flatten(k.enc)) {
@@ -90,6 +105,7 @@ func wDecoder(c *Ctx, w *prove.World, rel, recv, name string) *wcodec {
 	}
 	c.guard("extract", k.label()+" decoder", k.pos, func() {
 		k.x = wire.New(w, k.fn)
+		k.x.Units = wUnits
 		k.dec = k.x.Decode()
 		if len(k.dec.Atoms) == 0 {
 			c.R.Undecided("extract", k.label()+" decoder", k.pos, "no read of the input buffer was recognised")
@@ -193,13 +209,29 @@ func wIsLenPrefix(as []wire.Atom, i int, x *wire.X, dec bool) bool {
 			if wire.StripConv(nv) == l {
 				return true
 			}
+			if x != nil && x.Rep(nv) == x.Rep(l) {
+				return true
+			}
 			if ex, ok := l.(*ssa.Extract); ok && ex.Tuple == nv {
 				return true
 			}
 		}
 		return false
 	}
-	if a.Field != "" || a.Val == nil || n.Off == nil || n.End == nil {
+	if a.Field != "" {
+		return false
+	}
+	return wIsWidthOfNext(as, i)
+}
+
+// wIsWidthOfNext (decoder): the value read by atom i is the width of the read
+// that follows it, whether or not it is also stored into a field.
+func wIsWidthOfNext(as []wire.Atom, i int) bool {
+	if i+1 >= len(as) {
+		return false
+	}
+	a, n := as[i], as[i+1]
+	if a.Val == nil || n.Off == nil || n.End == nil {
 		return false
 	}
 	wv, ok := n.End.Sub(*n.Off).Single()
@@ -233,6 +265,16 @@ func wCompare(c *Ctx, rule, what, pos string, enc, dec *wcodec, encAtoms, decAto
 			ds = wSig(decAtoms, i, dec.x, true, pairs)
 		}
 		key := fmt.Sprintf("%s: atom %d", what, i)
+		// a length field: the encoder may emit len(G) directly (no stored copy of
+		// the length) where the decoder stores the value into a field AND uses it
+		// as the width of the read of G. Both say "W bytes, order O, = length of
+		// what follows"; the field the decoder keeps it in is not on the wire.
+		if es != ds && i < len(encAtoms) && i < len(decAtoms) && encAtoms[i].Kind == "fixed" && decAtoms[i].Kind == "fixed" &&
+			wIsLenPrefix(encAtoms, i, enc.x, false) && wIsWidthOfNext(decAtoms, i) &&
+			encAtoms[i].Width == decAtoms[i].Width && encAtoms[i].Order == decAtoms[i].Order {
+			es = fmt.Sprintf("length-prefix:%d%s", encAtoms[i].Width, encAtoms[i].Order)
+			ds = es
+		}
 		if es == ds {
 			r.OK(rule, key+" "+es, pos, "encoder and decoder agree: "+es)
 		} else {
